@@ -455,12 +455,25 @@ func ruleNilableFields(c *Ctx, rule string) {
 		suffix := "nn:" + r.Field.Name() + "@"
 		f = f.without(func(s string) bool { return strings.HasPrefix(s, suffix) || s == "nnf:"+r.Field.Name() })
 		if !isNilConst(st.Val) {
-			switch st.Val.(type) {
+			switch x := st.Val.(type) {
 			case *ssa.Alloc, *ssa.Parameter:
 				// &T{…}; a parameter handed in by a caller that just built it is
 				// not assumed non-nil
 				if _, isAlloc := st.Val.(*ssa.Alloc); isAlloc {
 					f = f.with(factOf(r.Field, fa.X))
+				}
+			case *ssa.Call:
+				// a constructor of the module: every return hands back a fresh object
+				if cal := staticCallee(x); cal != nil && inModule(cal) && cal.Blocks != nil && cal.Signature.Results().Len() == 1 {
+					fresh := len(returnsOf(cal)) > 0
+					for _, rt := range returnsOf(cal) {
+						if _, isAlloc := unspill(rt.Results[0]).(*ssa.Alloc); !isAlloc {
+							fresh = false
+						}
+					}
+					if fresh {
+						f = f.with(factOf(r.Field, fa.X))
+					}
 				}
 			}
 		}
